@@ -797,6 +797,10 @@ func VH_template(which int) {
 		toks = T(int(token.FOR), LP, S, S, RP, -1, I, -1, I, S)
 	case 17: // then-branch position:  if ( a ) h x h y ;
 		toks = T(int(token.IF), LP, I, RP, -1, I, -1, I, S)
+	case 21: // assignment chain through a property target:  a . p h b h c ;  ('=' among the holes)
+		toks = T(I, int(token.DOT), I, -1, I, -1, I, S)
+	case 22: // … and through an element target, with the property target in the middle:  a h b . p h c [ d ] h e ;
+		toks = T(I, -1, I, int(token.DOT), I, -1, I, int(token.LEFT_BRACKET), I, int(token.RIGHT_BRACKET), -1, I, S)
 	case 19: // two ifs, two else positions:  if ( a ) if ( b ) c ; h d ; h e ;
 		toks = T(int(token.IF), LP, I, RP, int(token.IF), LP, I, RP, I, S, -1, I, S, -1, I, S)
 	case 20: // else-if ladder:  if ( a ) b ; else if ( c ) d ; h e ; h f ;
